@@ -214,8 +214,24 @@ pub fn c11(ctx: &Ctx) -> i32 {
     out.inconclusive.extend(lout.inconclusive);
     out.distinct.merge(lout.distinct);
     out.census.merge(&lout.census);
+    // a level with more than 2^16 resting orders (counts and volumes beyond 16 bits in the recorded rows)
+    let mut mass_rows = 0u64;
+    for k in 0..ctx.tier.pick(2usize, 4usize) {
+        let seed = crate::util::Sm::derive(ctx.seed, 0x4d4c_00 + k as u64).next();
+        let r = if k % 2 == 0 { crate::extra::mass_level_records::<bourse_de::Env<10>>(seed, 66_000 + 500 * k) } else { crate::extra::mass_level_records::<bourse_de::MarketEnv<2, 10>>(seed, 66_000 + 500 * k) };
+        match r {
+            Ok(n) => mass_rows += n,
+            Err((kind, detail)) => {
+                if kind == "harness" {
+                    out.inconclusive.push(detail);
+                } else {
+                    out.violations.push(crate::report::Violation { signature: format!("C11:records:{}", kind), summary: format!("records / {}: {}", kind, detail), replay: json!({"kind": "mass_level", "seed": seed, "n": 66_000 + 500 * k, "env": k % 2}) });
+                }
+            }
+        }
+    }
     let c = &out.census;
-    let inconclusive = floors(&[("steps_in_long_sessions", long_steps, 10_000), ("rows_compared", c.rows_compared, 10_000), ("asymmetric_rows", c.asymmetric_rows, 2000), ("deep_level_rows", c.deep_level_rows, 1000), ("trades", c.trades, 1000), ("multi_asset_sessions", c.multi_asset_sessions, 100)]);
+    let inconclusive = floors(&[("rows_on_levels_with_more_than_65536_orders", mass_rows, 4), ("steps_in_long_sessions", long_steps, 10_000), ("rows_compared", c.rows_compared, 10_000), ("asymmetric_rows", c.asymmetric_rows, 2000), ("deep_level_rows", c.deep_level_rows, 1000), ("trades", c.trades, 1000), ("multi_asset_sessions", c.multi_asset_sessions, 100)]);
     let cov = json!({
         "evaluations": c.rows_compared,
         "distinct_nontrivial": out.distinct.len(),
